@@ -177,8 +177,8 @@ theorem C19_eq_hash_fails_record_neg_zero :
 
 theorem C19_coherent_all_values_fails : ¬ C19_coherent_all_values := by
   intro h
-  have := (h (.data []) (.record .nil) .extant (by decide) (by decide) (by decide)).2.1
+  have := (h (.i32 1) (.f64 0x3ff0000000000000) .extant (by decide) (by decide) (by decide)).2.2.2.1
   revert this
-  decide
+  decide +kernel
 
 end SwimVerif.ValueOrd
